@@ -473,6 +473,13 @@ pub fn family_single(level: u8) -> Vec<RuleSpec> {
             }
         }
     }
+    // repeated members next to distinct ones
+    for k in ["f", "all(f)", "of(f, 2)", "str(f)"] {
+        for (a, b) in [("a*", "*b"), ("x", "ab"), ("ia", "i*B*"), ("?a", "?b$"), ("*a*", "a*")] {
+            out.push(RuleSpec::one(Body::Map(vec![e(k, list(vec![st(a), st(b), st(a)]))])));
+            out.push(RuleSpec::one(Body::Map(vec![e(k, list(vec![st(a), st(a), st(b), st(b)]))])));
+        }
+    }
     // nested mappings
     let inner: Vec<Val> = vec![st("a"), st("b*"), st("*"), int(1), list(vec![st("a"), st("b")]), list(vec![st("a*"), st("?b")])];
     for a in &inner {
@@ -642,6 +649,8 @@ pub fn conditions_q() -> Vec<&'static str> {
         "not all(A)",
         "not of(A, 1)",
         "not of(A, 0)",
+        "not of(A, 2)",
+        "not of(A, 3)",
         "all(A) and B",
         "of(A, 1) or B",
         "B and of(A, 2)",
